@@ -4,7 +4,7 @@ import scen_common
 
 PID = "C05"
 ECANCELED_NUM = 125   # Linux errno ECANCELED (Gen/Consts.v has the probed value; the driver prints the raw return value)
-PROP_V = ["Props/Properties_C05cv.v", "Props/Properties_C05mu.v", "Props/Properties_C05sw.v"]
+PROP_V = ["Props/Properties_C05cv.v", "Props/Properties_C05mu.v", "Props/Properties_C05sw.v", "Props/Properties_C05sx.v"]
 GEN_MODULES = ["Consts", "Sites"]
 FLOW_FILES = ['cv.c', 'mu_wait.c', 'sem_wait.c', 'note.c']
 REPLAY_HINT = "VRT_SEED=<seed> [VRT_MODE=<m>] _work/h/cv_mix | muwait_mix | cancel_mix"
@@ -18,11 +18,17 @@ PARTIAL = ["nsync_sem_wait_with_cancel_ (all of sem_wait.c) and what it meets in
            "negative included, enables the time-out once reached), C15sw_no_deadline; C13sw_no_dead_touch / C13sw_taken_live / C13sw_queue (no step reads or "
            "writes an on-stack record whose call has returned).  CvModel / MuWaitModel still take the function's RESULT as a guarded choice: the composition "
            "is by the shared contract, not one combined model",
-           "C05sw_reason_full ('ECANCELED => the notified word is set') is refuted by design (C05sw_reason_refuted; replayed on the real library): a note "
-           "created with an expiry at or before the epoch counts as notified for every observer although nobody ever stores its `notified` word; "
-           "C05sw_expired_prompt (run alone, a wait with an expired deadline returns within 16 own steps) is only a Definition with vm_compute instances -- "
-           "it needs two further invariants (disconnecting != 0 only inside notify; a live record's owner is inside its call); promptness is decided by the "
-           "C15 grid and the cancel_mix quiescent-state observer",
+           "Properties_C05sx (after the third statement audit): C05sx_flag_sound (a note's `notified` word is non-zero only if nsync_note_notify was called on it, "
+           "the parent's notifier has come to it, or the clock has reached its expiry) and C05sx_cancel_sound (a wait returns ECANCELED only for a cancel note with "
+           "that justification, in the state the returning step started from) -- the clause 'ECANCELED only if the note is notified'; the seeded defect C15c as a "
+           "model variant falsifies it (C05sx_cancel_sound_variant_refuted); C05sx_reason_strong (which `why` goes with which result, record created or not); "
+           "C05sx_expired_prompt / _quiet / _composed ('needs no further wake-up', C15 'promptly': with the deadline or the note's expiry reached, the wait run "
+           "alone is never blocked and returns non-zero within 15 + 2 * (records queued on the note) own steps once note_mu is free and disconnecting = 0; from ANY "
+           "reachable world the threads in the way -- the note_mu holder, the disconnecting notifier -- finish alone in boundedly many steps); "
+           "C05sx_no_lost_cancel_strong (by the waiter's own record state: queued => a notifier holding note_mu is draining that queue; taken => a notifier is at "
+           "the store / post for exactly this record; posted => sem >= 1); C05sx_expiry_enabled; C05sx_next_call_cancelled (a cancelled waiter whose P took the "
+           "notifier's post returns 0 and its NEXT wait on that note returns ECANCELED at once).  C05sw_reason_full ('ECANCELED => the notified word is set') "
+           "stays refuted by design (a note created with an expiry at or before the epoch never gets its word stored: section 9.2)",
            "C05_reason / C05_mode: the guards of st_WSem and the abstract acquire are by construction (stated in the theorem comments); their content is "
            "outcome in {0, sem_outcome} on every path and the re-acquired mode = entry mode (invariant lt_ok); C05_no_P_after_outcome_pc/_log only restate the loop guard; "
            "the mode in which nsync_mu_lock_slow_ re-acquires (cv.c:299) is inside CvModel's abstract mutex -- the mu_wait half (C05mu_return over MuWaitModel) models "
